@@ -409,6 +409,25 @@ func c13ForkDirThroughSymlink(after c13Tree, outsRoot string, dirs []string) boo
 	return false
 }
 
+// c13BelowSymlink: does one of the trees hold an entry strictly below a path that is a symlink in
+// either of them (the real code wrote through a symlinked output of an overlapping fork; the
+// model, which does not resolve intermediate links, put the entries below the link itself)?
+func c13BelowSymlink(real, model c13Tree) bool {
+	isLink := func(p string) bool {
+		return strings.HasPrefix(real[p], "L") || strings.HasPrefix(model[p], "L")
+	}
+	for _, t := range []c13Tree{real, model} {
+		for p := range t {
+			for a := filepath.Dir(p); a != "/" && a != "."; a = filepath.Dir(a) {
+				if isLink(a) {
+					return true
+				}
+			}
+		}
+	}
+	return false
+}
+
 func c13MappedKey(class string) string {
 	if class == "separable" {
 		return "C13:mapped-materialise"
@@ -713,6 +732,10 @@ func c13DirectMappedX(c *Ctx, r *Result, idx int, seed int64, fixedKeys []string
 	parts := strings.Split(reply, "\t")
 	if len(parts) != 2 {
 		r.violate(Violation{Kind: "correspondence", Key: "C13:driver", What: "driver reply: " + c13Short(reply), Input: cas, Broken: "driver"})
+		return
+	}
+	if class != "separable" && c13BelowSymlink(after, c13ParseTree(parts[1])) {
+		r.hist("mapped:model-skipped-symlinked-fork-dir")
 		return
 	}
 	mj, merr := c13ParseJSON([]byte(unhx(parts[0])))
